@@ -17,12 +17,17 @@
   are dumped and compared with their models after every operation on either) together with the
   drop ledger (a shared buffer shows up as a double drop).
 
-  `clone_from` (`World.cloneFrom`) is modelled and compared with the code on every run
-  (including the re-use of destination tables, the stale lookups and the drops), but has no
-  theorem yet: C10 for `clone_from` rests on the correspondence check and on `Inv` evaluated on
-  the real dump of the destination.
+  `clone_from` (`World.cloneFrom`, mirroring `Archetypes::clone_from`: every source table is
+  looked up in the destination by identifier bytes and overwrites that table in place or is added
+  as a new table; destination tables without a counterpart are cleared, not removed; type-id
+  lookups are upserted; the allocator is rebuilt through the identifier map) is proved too
+  (`C10_clone_from`): for every destination and source satisfying the invariant over the same
+  registry it never fails, leaves the destination satisfying the invariant and denoting the
+  source's map with copied values, same `len`, same resources — whatever the destination held.
+  (It need not compare `==` to the source: emptied destination tables remain, and `World::eq`
+  compares table counts; the property claims equality for `clone()` only.)
 -/
-import BroodModel.Lemmas.Clone
+import BroodModel.Lemmas.CloneFrom
 
 namespace Brood
 
@@ -44,6 +49,23 @@ theorem C10_clone_reachable (n : Nat) (res : List Val) (ops : List Op) {w : Worl
   have hi := run_inv (inv_init n res) ops h
   obtain ⟨w', h1, h2, _, h4, h5, _, h7⟩ := clone_spec hi e next
   exact ⟨w', h1, h2, h4, h5, h7, eqWorld_true_symm hi h2 h7⟩
+
+/-- **`clone_from` yields a world holding the same entities, identifiers, values and resources as
+the source, whatever the destination held before**, never reaches an unchecked map lookup that
+misses, and leaves the destination satisfying the invariant. -/
+theorem C10_clone_from {d s : World} (hd : Inv d) (hs : Inv s) (hn : d.n = s.n) (e : Nat) :
+    ∃ fin drops, World.cloneFrom d s e = .ok (fin, drops) ∧ Inv fin ∧ fin.n = s.n ∧ fin.len = s.len ∧
+      fin.res = s.res.map (cloneVal e) ∧
+      ∀ id, fin.entity id = (s.entity id).map (fun vs => vs.map (cloneVal e)) :=
+  cloneFrom_spec hd hs hn e
+
+/-- The destination keeps working afterwards like any valid world. -/
+theorem C10_clone_from_keeps_working {d s : World} (hd : Inv d) (hs : Inv s) (hn : d.n = s.n) (e : Nat)
+    (ops : List Op) (hwt : ∀ op ∈ ops, op.wt s.n) :
+    ∃ fin drops fin', World.cloneFrom d s e = .ok (fin, drops) ∧ run fin ops = .ok fin' ∧ Inv fin' := by
+  obtain ⟨fin, drops, h1, h2, h3, _⟩ := cloneFrom_spec hd hs hn e
+  obtain ⟨fin', r1, r2, _⟩ := run_total h2 ops (by rw [h3]; exact hwt)
+  exact ⟨fin, drops, fin', h1, r1, r2⟩
 
 /-- A copied value is equivalent to (compares equal with) the value it was copied from and has the
 same component type; its ledger identity is its own (`e > 0`). -/
@@ -79,9 +101,23 @@ example :
      | .ub _ => (none, none, 0, [], none)) =
     (some [⟨1, 3 + 1048576⟩], none, 1, [⟨7, 70 + 1048576⟩], some true) := by decide
 
+/-- Non-vacuity: `clone_from` into a destination that shares one table shape with the source, has
+one the source lacks and lacks one the source has. -/
+example :
+    (match run (World.init 3 []) [.insert [0] [⟨0, 1⟩], .insert [1] [⟨1, 2⟩], .remove ⟨0, 0⟩],
+           run (World.init 3 []) [.insert [0] [⟨0, 5⟩], .insert [0, 2] [⟨0, 6⟩, ⟨2, 7⟩]] with
+     | .ok d, .ok s =>
+       (match World.cloneFrom d s 1 with
+        | .ok (f, _) => (f.entity ⟨0, 0⟩, f.entity ⟨1, 0⟩, f.len, f.archs.length)
+        | .ub _ => (none, none, 0, 0))
+     | _, _ => (none, none, 0, 0)) =
+    (some [⟨0, 5 + 1048576⟩], some [⟨0, 6 + 1048576⟩, ⟨2, 7 + 1048576⟩], 2, 3) := by decide
+
 end Brood
 
 #print axioms Brood.C10_clone
 #print axioms Brood.C10_clone_reachable
 #print axioms Brood.C10_copied_values
 #print axioms Brood.C10_clone_keeps_working
+#print axioms Brood.C10_clone_from
+#print axioms Brood.C10_clone_from_keeps_working
